@@ -133,7 +133,15 @@ pub struct Config {
 // ------------------------------------------------------------------------------------------------
 // generation from one seed
 
-const BAD_LENGTHS: [usize; 9] = [0, 1, 2, 4, 5, 6, 7, 16, 33];
+/// Wrong lengths: the small ones the property's quantifier lists, both sides of every power of two
+/// up to 2^10 symbols, and 3 + 2^k symbols for k = 4..16 — the lengths whose symbol count or bit
+/// count (4 bits per symbol) aliases a real codon's when a narrower integer type holds it
+/// (3 + 64 symbols = 268 bits = 12 mod 256, 3 + 256 symbols = 3 mod 256, 3 + 16384 symbols =
+/// 12 bits mod 2^16, 3 + 65536 symbols = 3 mod 2^16).
+const BAD_LENGTHS: [usize; 41] = [
+    0, 1, 2, 4, 5, 6, 7, 8, 9, 15, 16, 17, 19, 31, 32, 33, 35, 63, 64, 65, 67, 127, 128, 129, 131, 255, 256, 257, 259,
+    511, 512, 515, 1023, 1024, 1027, 2051, 4099, 8195, 16387, 32771, 65539,
+];
 
 fn gen_pres(rng: &mut Rng, n: usize) -> Pres {
     let kind = match rng.below(16) {
@@ -233,11 +241,33 @@ pub fn generate(run_seed: u64) -> Config {
         }
     }
     for n in BAD_LENGTHS {
-        for _ in 0..4 {
+        // the long ones once per run and not in every run (they cost a carrier of that length)
+        let reps = if n <= 7 { 4 } else if n <= 300 { 2 } else { usize::from(rng.chance(1, 3)) };
+        for _ in 0..reps {
             let syms = letters(&mut rng, n, true);
-            let pres = gen_pres(&mut rng, n);
+            let mut pres = gen_pres(&mut rng, n);
+            if n > 300 {
+                pres.off %= 64;
+            }
             ops.push(Op::BadLen { syms, pres });
         }
+    }
+    // a few arbitrary lengths, and a few congruent to 3 modulo 64 (bit length = 12 mod 256)
+    for _ in 0..6 {
+        let n = match rng.below(3) {
+            0 => 3 + 64 * rng.range(1, 12),
+            _ => {
+                let n = rng.range(4, 400);
+                if n == 3 {
+                    4
+                } else {
+                    n
+                }
+            }
+        };
+        let syms = letters(&mut rng, n, true);
+        let pres = gen_pres(&mut rng, n);
+        ops.push(Op::BadLen { syms, pres });
     }
     // prefixes / extensions of real table rows: the closest wrong-length inputs
     for row in ["GC", "GCNA", "TR", "TRAA", "AT", "ATGG", "N", "NNNN", "TG", "TGGN"] {
@@ -979,6 +1009,9 @@ pub mod miri_scenario {
     /// in the code under test.
     static STAMP: AtomicUsize = AtomicUsize::new(0);
 
+    /// Upper bound on threads in the uniform-role scenarios: 4 under Miri (cost), 6 under shuttle.
+    pub static MAX_THREADS: AtomicUsize = AtomicUsize::new(4);
+
     pub struct ThreadPlan {
         pub role: &'static str,
         pub ops: Vec<Op>,
@@ -1057,8 +1090,9 @@ pub mod miri_scenario {
             }
             plans.truncate(threads_override.unwrap_or(t_full).max(1).min(3));
         } else {
-            let t_full = 3 + rng.below(2);
-            for _ in 0..4 {
+            let max_t = MAX_THREADS.load(Ordering::Relaxed).max(4);
+            let t_full = if max_t > 4 && rng.chance(1, 3) { 5 + rng.below(max_t - 4) } else { 3 + rng.below(2) };
+            for _ in 0..max_t {
                 let mut ops = Vec::new();
                 if scenario == "all-codon" {
                     ops.push(codon_op(&mut rng));
@@ -1074,7 +1108,7 @@ pub mod miri_scenario {
                 let role = if scenario == "all-codon" { "codon-first" } else { "amino-first" };
                 plans.push(ThreadPlan { role, ops });
             }
-            plans.truncate(threads_override.unwrap_or(t_full).max(1).min(4));
+            plans.truncate(threads_override.unwrap_or(t_full).max(1).min(max_t));
         }
         plans
     }
